@@ -143,6 +143,22 @@ func (ds *dataStore) flush(chunk int, force bool) error {
 	return nil
 }
 
+// flushPending flushes the files below the head that still hold buffered records
+// (the flush that follows a rotation runs in its own goroutine and may not have run yet).
+func (ds *dataStore) flushPending() {
+	ds.Lock()
+	head := ds.newHead
+	ds.Unlock()
+	for i := 0; i < head; i++ {
+		ds.chunks[i].Lock()
+		n := len(ds.chunks[i].wbuf)
+		ds.chunks[i].Unlock()
+		if n > 0 {
+			ds.flush(i, true)
+		}
+	}
+}
+
 func (ds *dataStore) GetRecordByPos(pos Position) (res *Record, inbuffer bool, err error) {
 	return ds.chunks[pos.ChunkID].GetRecordByOffset(pos.Offset)
 }
